@@ -24,6 +24,10 @@ EXPLANATION = (
   "offsets are exact rationals at the GSI frame rate; (LINT-g/LINT-e/DEF-init) no mistyped GSI/TTI field, no identity comparison of "
   "subtitle numbers, no DataFile attribute left unassigned on an error path."
   " (STATE-alias / STATE-global) no function of the anchored modules mutates a module- or class-level container, rebinds module / class state or mutates a mutable default argument, so a result never depends on earlier calls;"
+  " (FIN-span) a span opened while underline and / or italics are active carries each of them independently (4 combinations);"
+  " (TAB-tcp) the GSI TCP field is read as HHMMSSFF;"
+  " (NUL-field) the paragraph under construction is tested before use (a cumulative block without a first block);"
+  " (TAB-tf-codes / TAB-jc) control codes and justification codes are read by finite evaluation of the dispatch, whether it is an if-chain or lookup tables;"
 )
 RULE_TEXT = "per table entry / byte value (aggregated per classifier) / struct format / call site"
 UNDECIDED = ["region geometry from VP/JC and row counts", "cumulative-set accumulation behaviour", "the text-field state machine as a whole (span boundaries, space insertion)",
